@@ -314,7 +314,7 @@ func TestC07(t *testing.T) {
 	defer finish(t, rec)
 	rec.SetJournalAll(true)
 	rec.Assume("the fake backend applies Cassandra's identifier rule to USE and records the keyspace of every connection")
-	runProp(t, rec, "history", perShard(evid.Pick(4000, 80000)), func(rt *rapid.T) c07Case {
+	runProp(t, rec, "history", perShard(evid.Pick(4000, 200000)), func(rt *rapid.T) c07Case {
 		c := c07Gen(rt)
 		// classify with the model
 		exists := map[string]bool{"system": true}
